@@ -23,6 +23,8 @@ import (
 
 	_ "vgwsim/checks"
 	"vgwsim/core"
+	"vgwsim/gw"
+	"vgwsim/routes"
 )
 
 var verifDir = func() string {
@@ -486,6 +488,13 @@ func parentRun(args []string) int {
 		fmt.Fprintln(os.Stderr, "unknown check", id)
 		return 2
 	}
+	switch id {
+	case "C02", "C03", "C04", "C15", "C20":
+		if d := routes.RegistrationsDiff(gw.RouterRegistrations); d != "" {
+			fmt.Printf("%s: the route table of the harness does not match s3api/router.go (%s): the check would not examine every route\n", id, d)
+			return 2
+		}
+	}
 	tier := os.Getenv("VERIF_TIER")
 	for _, a := range args[1:] {
 		if a == "--thorough" {
@@ -779,8 +788,12 @@ func parentRun(args []string) int {
 		"violations":  violations,
 	}
 	eb, _ := json.MarshalIndent(ev, "", " ")
-	os.MkdirAll(filepath.Join(verifDir, "evidence"), 0o755)
-	if err := os.WriteFile(filepath.Join(verifDir, "evidence", id+".json"), eb, 0o644); err != nil {
+	evDir := filepath.Join(verifDir, "evidence")
+	if d := os.Getenv("VGWSIM_EVIDENCE_DIR"); d != "" {
+		evDir = d // runs against a seeded change must not overwrite the evidence of the real tree
+	}
+	os.MkdirAll(evDir, 0o755)
+	if err := os.WriteFile(filepath.Join(evDir, id+".json"), eb, 0o644); err != nil {
 		fmt.Fprintln(os.Stderr, "evidence:", err)
 		if exit == 0 {
 			exit = 2
